@@ -168,6 +168,10 @@ def main(pid, tier='quick', seed=None, replay=None):
         for i, v in zip(idx, vs):
             verdicts[i] = v
 
+        for i, item in goal_items.items():
+            obs[i]['_goal_labels'] = item.get('labels')
+            obs[i]['_goal_verdicts'] = item.get('verdicts')
+            obs[i]['_pyviolation'] = item.get('pyviolation')
         # 3. triage -------------------------------------------------------------------------
         reported_known = set()
         nrep = 0
